@@ -738,7 +738,10 @@ func runOnce(p params, watchdog time.Duration) (h *history, stuck string, late t
 		select {
 		case r = <-ch:
 		case <-time.After(2 * time.Second):
-			r = res{&history{P: p, StartCall: -1, CloseCall: -1, CloseRet: -1}, "the run did not complete (a library call does not return)"}
+			r = res{&history{P: p, StartCall: -1, CloseCall: -1, CloseRet: -1}, "hang: the run did not complete (a library call does not return)"}
+		}
+		if r.h != nil && r.h.Panic == "" {
+			r.h.Panic = rc.panicked()
 		}
 		if r.stuck == "" {
 			r.stuck = "the run needed longer than the watchdog"
